@@ -37,6 +37,11 @@ import (
 	"golang.org/x/net/context"
 )
 
+const (
+	headerRange   = "Range"
+	headerIfRange = "If-Range"
+)
+
 var (
 	noCacheReg = regexp.MustCompile(`(?i)no-cache|no-store|private`)
 	sMaxAgeReg = regexp.MustCompile(`s-maxage=(\d+)`)
@@ -104,17 +109,26 @@ func NewProxy(s *server) elton.Handler {
 		}
 
 		reqHeader := c.Request.Header
-		var ifModifiedSince, ifNoneMatch string
+		var ifModifiedSince, ifNoneMatch, rangeValue, ifRange string
 		status := getCacheStatus(c)
 		// 针对fetching的请求，由于其最终状态未知，因此需要删除有可能导致304的请求，避免无法生成缓存
+		// Range与If-Range也需要删除，避免将206的部分响应缓存并返回给其它客户端
 		if status == cache.StatusFetching {
 			ifModifiedSince = reqHeader.Get(elton.HeaderIfModifiedSince)
 			ifNoneMatch = reqHeader.Get(elton.HeaderIfNoneMatch)
+			rangeValue = reqHeader.Get(headerRange)
+			ifRange = reqHeader.Get(headerIfRange)
 			if ifModifiedSince != "" {
 				reqHeader.Del(elton.HeaderIfModifiedSince)
 			}
 			if ifNoneMatch != "" {
 				reqHeader.Del(elton.HeaderIfNoneMatch)
+			}
+			if rangeValue != "" {
+				reqHeader.Del(headerRange)
+			}
+			if ifRange != "" {
+				reqHeader.Del(headerIfRange)
 			}
 		}
 
@@ -168,6 +182,12 @@ func NewProxy(s *server) elton.Handler {
 		}
 		if ifNoneMatch != "" {
 			reqHeader.Set(elton.HeaderIfNoneMatch, ifNoneMatch)
+		}
+		if rangeValue != "" {
+			reqHeader.Set(headerRange, rangeValue)
+		}
+		if ifRange != "" {
+			reqHeader.Set(headerIfRange, ifRange)
 		}
 		if acceptEncodingChanged {
 			reqHeader.Set(elton.HeaderAcceptEncoding, acceptEncoding)
